@@ -287,6 +287,46 @@ func positionsOutside(line, text string) string {
 	return ""
 }
 
+// notAMark checks every positioned error of a canonical `rej` line against the answer of `spec.marks`
+// (what an error about a token may point at, computed by the reference reader from the text alone):
+// kw / semi must stand at the first character of a token, rbrace at a `}`, esc at the backslash of an
+// undefined pair in a double-quoted string, sq / dq / cmt at the opener that is never closed.  It returns
+// the first error that does not, with the candidate positions, or "".  (`missing N closing braces`
+// and everything without a position are outside the claim; an ill-formed text has no marks.)
+func notAMark(line, marks string) (string, string) {
+	if !strings.HasPrefix(line, "rej ") || marks == "illformed" || marks == "bad-op" {
+		return "", ""
+	}
+	set := map[string]bool{}
+	for _, m := range strings.Fields(marks) {
+		set[m] = true
+	}
+	kind := map[string]string{"kw": "t", "semi": "t", "rbrace": "b", "esc": "e", "sq": "q", "dq": "d", "cmt": "c"}
+	for _, f := range strings.Fields(line)[2:] {
+		p := strings.SplitN(f, ":", 3)
+		if len(p) != 3 || p[0] == "-" {
+			continue
+		}
+		k, ok := kind[p[2]]
+		if !ok {
+			continue
+		}
+		if !set[k+p[0]+":"+p[1]] {
+			var want []string
+			for _, m := range strings.Fields(marks) {
+				if strings.HasPrefix(m, k) {
+					want = append(want, m[1:])
+				}
+			}
+			if len(want) > 12 {
+				want = append(want[:12], "…")
+			}
+			return f, p[2] + " at " + strings.Join(want, " ")
+		}
+	}
+	return "", ""
+}
+
 // firstPositioned returns the first error with a position in a canonical `rej` line.
 func firstPositioned(line string) (string, bool) {
 	fs := strings.Fields(line)
@@ -325,11 +365,18 @@ func (ck *Checker) Run(cases []Case) {
 	}
 	var posReq []string
 	var posIdx []int
+	var markIdx []int
 	if ck.C16 {
 		for i, c := range cases {
 			if c.FaultClass != "" {
 				posReq = append(posReq, fmt.Sprintf("spec.pos %s %d", lib.HexS(c.Text), c.FaultOff))
 				posIdx = append(posIdx, i)
+			}
+		}
+		for i, c := range cases {
+			if strings.HasPrefix(goOut[i], "rej ") {
+				posReq = append(posReq, "spec.marks "+lib.HexS(c.Text))
+				markIdx = append(markIdx, i)
 			}
 		}
 	}
@@ -340,6 +387,10 @@ func (ck *Checker) Run(cases []Case) {
 	posAns := map[int]string{}
 	for k, i := range posIdx {
 		posAns[i] = ans[2*n+k]
+	}
+	markAns := map[int]string{}
+	for k, i := range markIdx {
+		markAns[i] = ans[2*n+len(posIdx)+k]
 	}
 	st := ck.St
 	st.mu.Lock()
@@ -395,6 +446,9 @@ func (ck *Checker) Run(cases []Case) {
 			// single-fault text the first positioned error stands where the reference reader puts the fault
 			if bad := positionsOutside(g, c.Text); bad != "" {
 				v, why = "violates", "C16: error position "+bad+" is not a position of the text"
+			} else if bad, want := notAMark(g, markAns[i]); bad != "" {
+				v, why = "violates", "C16: the error "+bad+" does not stand at a token, backslash or opener of its kind; "+
+					"computed from the text alone these stand at: "+want
 			} else if c.FaultClass != "" {
 				want := strings.Replace(posAns[i], " ", ":", 1) + ":" + c.FaultClass
 				got, ok := "", false
@@ -518,8 +572,12 @@ func CorpusTexts(corpusDir string) []string {
 			out = append(out, s)
 		}
 	}
+	repo := os.Getenv("VERIF_REPO")
+	if repo == "" {
+		repo = "/repo"
+	}
 	var files []string
-	filepath.Walk("/repo", func(p string, info os.FileInfo, err error) error {
+	filepath.Walk(repo, func(p string, info os.FileInfo, err error) error {
 		if err == nil && !info.IsDir() && strings.HasSuffix(p, ".yang") {
 			files = append(files, p)
 		}
@@ -538,7 +596,7 @@ func CorpusTexts(corpusDir string) []string {
 		}
 	}
 	var tests []string
-	filepath.Walk("/repo/pkg", func(p string, info os.FileInfo, err error) error {
+	filepath.Walk(repo+"/pkg", func(p string, info os.FileInfo, err error) error {
 		if err == nil && !info.IsDir() && strings.HasSuffix(p, "_test.go") {
 			tests = append(tests, p)
 		}
